@@ -627,7 +627,8 @@ class SInt(_Proxy):
         return ctx().branch(self.z != 0)
 
     def __index__(self):
-        raise Unsupported("symbolic int needed as a concrete index (range/list index)")
+        # python sequence indexing with a symbolic int: one path per feasible value
+        return ctx().choose(self.z)
 
     def __int__(self):
         raise Unsupported("int() of a symbolic int reached the C level")
@@ -838,7 +839,7 @@ class SEnum(_Proxy):
         return self.concretize().encode(*a)
 
 
-for _c in (SReal, SNpReal, SInt):
+for _c in (SReal, SNpReal, SInt, SBool):
     numbers.Number.register(_c)
 numbers.Real.register(SReal)
 numbers.Integral.register(SInt)
